@@ -117,6 +117,8 @@ def execute(prog):
             for gen, ent in enumerate(prog["chain"]):
                 kind, fmt = ent[0], ent[1]
                 restart = ent[2] if len(ent) > 2 else True
+                if not libx.fmt_ok(toy, fmt):
+                    continue
                 out["ops"] += 1
                 where = "%s:%s" % (kind, fmt)
                 try:
